@@ -23,7 +23,7 @@ ASSUMPTIONS = [
     "exact comparison uses == on every entry (signed zeros of structural zeros are not distinguished); weights |w| <= 8 and data magnitudes within 2^+-40, so no overflow/underflow occurs",
 ]
 TIERS = {"quick": {"worlds": 2500, "wall": 150, "limit": 60.0}, "thorough": {"worlds": 60000, "wall": 1700, "limit": 120.0}}
-GATES = ("nontrivial", "worlds.int_dtype", "points.run_iterates", "points.probes", "scaling.Custom", "scaling.Nominal", "scaling.GradJac", "scaling.KKT", "rows.offset", "rows.slack")
+GATES = ("nontrivial", "worlds.shuffled_coo_order", "worlds.int_dtype", "points.run_iterates", "points.probes", "scaling.Custom", "scaling.Nominal", "scaling.GradJac", "scaling.KKT", "rows.offset", "rows.slack")
 
 
 def generate(rng, seed, index, tier):
@@ -43,6 +43,8 @@ def generate(rng, seed, index, tier):
         spec["a"] = np.zeros(spec["n"])
         spec["dom"] = None
         spec["int_dtype"] = True
+    if rng.random() < 0.3:
+        spec["shuffle"] = True
     spec["policy"] = str(rng.choice(["fresh", "cached", "memo"]))
     y0 = np.round(rng.normal(size=spec["m"]), 3)
     kw = {}
@@ -109,6 +111,8 @@ def case(world):
     bump("scaling." + st)
     if world["problem"].get("int_dtype"):
         bump("worlds.int_dtype")
+    if world["problem"].get("shuffle") and world["problem"].get("fmt") == "coo":
+        bump("worlds.shuffled_coo_order")
     if rt.ns:
         bump("rows.slack")
     if np.any(rt.off != 0):
